@@ -23,17 +23,21 @@ CONSTANTS UserSeq,     \* user modules (strings) in the order sort.Strings gives
           G,           \* the global prelude module
           MaxLits,     \* each user module has 0..MaxLits function literals
           Ordered,     \* TRUE: import lists are all permutations of subsets; FALSE: ascending only
-          AllowMissing \* TRUE: a user module other than Entry may have no source file
+          AllowMissing,\* TRUE: a user module other than Entry may have no source file
+          DiagChoices, \* each user module has n \in DiagChoices pairs of same-line lexer/parser errors
+          Rounds       \* number of independent compilations of the same project per behaviour
 
 User == {UserSeq[i] : i \in 1 .. Len(UserSeq)}
 Mods == User \cup {G}
 
-VARIABLES imports, nlits, missing,           \* the project (never changes)
-          seen, pc, idx, litsLeft, registry, depGraph, errs, wg, ctr, names, mainpc, sorted, hist
+VARIABLES imports, nlits, missing, ndiag,    \* the project (never changes)
+          seen, pc, idx, litsLeft, registry, depGraph, errs, wg, ctr, names, mainpc, sorted, hist,
+          bag,          \* the diagnostic bag in insertion order: records [f, line, n]
+          round, past   \* completed compilations of this project: <<[sched, out]>>
 
-proj  == <<imports, nlits, missing>>
-vars  == <<imports, nlits, missing, seen, pc, idx, litsLeft, registry, depGraph, errs, wg, ctr,
-           names, mainpc, sorted, hist>>
+proj  == <<imports, nlits, missing, ndiag>>
+vars  == <<imports, nlits, missing, ndiag, seen, pc, idx, litsLeft, registry, depGraph, errs, wg, ctr,
+           names, mainpc, sorted, hist, bag, round, past>>
 
 Range(s) == {s[i] : i \in 1 .. Len(s)}
 
@@ -64,6 +68,8 @@ Reach(g, from) == ReachR(g, {from}, {from})     \* nodes reachable from `from` (
 Init == /\ imports \in [User -> ImportLists]
         /\ nlits \in [User -> 0 .. MaxLits]
         /\ missing \in (IF AllowMissing THEN SUBSET (User \ {Entry}) ELSE {{}})
+        /\ ndiag \in [User -> DiagChoices]
+        /\ bag = <<>> /\ round = 1 /\ past = <<>>
         /\ seen = {} /\ pc = [m \in Mods |-> "idle"] /\ idx = [m \in Mods |-> 1]
         /\ litsLeft = [m \in Mods |-> 0] /\ registry = {G}
         /\ depGraph = [m \in Mods |-> <<>>] /\ errs = <<>> /\ wg = 0 /\ ctr = 0
@@ -80,34 +86,60 @@ MainSpawn == /\ mainpc \in {"spawnG", "spawnE"}
                 /\ ClaimFx(m)
                 /\ hist' = Append(hist, Lbl("Spawn", "main", m))
              /\ mainpc' = IF mainpc = "spawnG" THEN "spawnE" ELSE "wait"
-             /\ UNCHANGED <<proj, idx, litsLeft, registry, depGraph, errs, ctr, names, sorted>>
+             /\ UNCHANGED <<proj, idx, litsLeft, registry, depGraph, errs, ctr, names, sorted, bag, round, past>>
+
+(* the k-th erroneous line of m carries two diagnostics (same file, same line) *)
+RECURSIVE LexDiagsN(_, _)
+LexDiagsN(m, k) == IF k = 0 THEN <<>>
+                   ELSE LexDiagsN(m, k - 1) \o << [f |-> m, line |-> 100 + k, n |-> 1],
+                                                   [f |-> m, line |-> 100 + k, n |-> 2] >>
+LexDiags(m) == IF m = G THEN <<>> ELSE LexDiagsN(m, ndiag[m])
 
 (* parseModule entry: AddModule, locate + read the file; lexing starts *)
 ParseBegin(m) ==
     /\ pc[m] = "claimed"
     /\ registry' = registry \cup {m}
     /\ IF m \in missing
-       THEN /\ errs' = Append(errs, [kind |-> "missing", m |-> m, d |-> m])
-            /\ pc' = [pc EXCEPT ![m] = "exit"] /\ UNCHANGED litsLeft
+       THEN /\ errs' = Append(errs, [kind |-> "missing", m |-> m, d |-> m, path |-> <<>>])
+            /\ pc' = [pc EXCEPT ![m] = "exit"] /\ UNCHANGED <<litsLeft, bag>>
        ELSE /\ pc' = [pc EXCEPT ![m] = "parse"]
             /\ litsLeft' = [litsLeft EXCEPT ![m] = IF m = G THEN 0 ELSE nlits[m]]
+            /\ bag' = bag \o LexDiags(m)       \* lexer/parser diagnostics of m, in text order
             /\ UNCHANGED errs
     /\ hist' = Append(hist, Lbl("ParseBegin", m, ""))
-    /\ UNCHANGED <<proj, seen, idx, depGraph, wg, ctr, names, mainpc, sorted>>
+    /\ UNCHANGED <<proj, seen, idx, depGraph, wg, ctr, names, mainpc, sorted, round, past>>
 
 (* utils.GenerateFuncLitID: atomic add on a process-global counter *)
 GenLit(m) == /\ pc[m] = "parse" /\ litsLeft[m] > 0
              /\ ctr' = ctr + 1 /\ names' = [names EXCEPT ![m] = Append(@, ctr + 1)]
              /\ litsLeft' = [litsLeft EXCEPT ![m] = @ - 1]
              /\ hist' = Append(hist, Lbl("GenLit", m, "__func_lit__"))
-             /\ UNCHANGED <<proj, seen, pc, idx, registry, depGraph, errs, wg, mainpc, sorted>>
+             /\ UNCHANGED <<proj, seen, pc, idx, registry, depGraph, errs, wg, mainpc, sorted, bag, round, past>>
 
 (* AddDependency(m, d): the critical section of ctx.mu — cycle search and insertion together *)
+(* findCycle / hasCyclePath: depth-first search in the order of the dependency lists, one visited
+   set for the whole search; the path found is printed in the diagnostic *)
+RECURSIVE Dfs(_, _, _, _)
+RECURSIVE DfsList(_, _, _, _, _)
+Dfs(g, start, target, visited) ==
+    IF start = target THEN [found |-> TRUE, path |-> <<>>, visited |-> visited]
+    ELSE IF start \in visited THEN [found |-> FALSE, path |-> <<>>, visited |-> visited]
+    ELSE DfsList(g, g[start], target, visited \cup {start}, start)
+DfsList(g, deps, target, visited, node) ==
+    IF deps = <<>> THEN [found |-> FALSE, path |-> <<>>, visited |-> visited]
+    ELSE LET r == Dfs(g, Head(deps), target, visited) IN
+         IF r.found THEN [found |-> TRUE, path |-> <<node>> \o r.path, visited |-> r.visited]
+         ELSE DfsList(g, Tail(deps), target, r.visited, node)
+CyclePath(m, d) == <<m>> \o Dfs(depGraph, d, m, {}).path \o <<m>>
+
+ImportLine(m, d) == IF d = G THEN 0 ELSE CHOOSE i \in 1 .. Len(Imp(m)) : Imp(m)[i] = d
 AddDepFx(m, d) ==
     IF m \in Reach(depGraph, d)
-    THEN /\ errs' = Append(errs, [kind |-> "cycle", m |-> m, d |-> d]) /\ UNCHANGED depGraph
+    THEN /\ errs' = Append(errs, [kind |-> "cycle", m |-> m, d |-> d, path |-> CyclePath(m, d)])
+         /\ UNCHANGED depGraph
+         /\ bag' = Append(bag, [f |-> m, line |-> ImportLine(m, d), n |-> 0])
     ELSE /\ depGraph' = [depGraph EXCEPT ![m] = IF d \in Range(@) THEN @ ELSE Append(@, d)]
-         /\ UNCHANGED errs
+         /\ UNCHANGED <<errs, bag>>
 AddDepResult(m, d) == IF m \in Reach(depGraph, d) THEN "cycle"
                       ELSE IF d \in Range(depGraph[m]) THEN "dup" ELSE "ok"
 
@@ -117,7 +149,7 @@ DepG(m) == /\ pc[m] = "parse" /\ litsLeft[m] = 0 /\ m # G
            /\ pc' = [pc EXCEPT ![m] = IF Len(Imp(m)) = 0 THEN "exit" ELSE "dep"]
            /\ idx' = [idx EXCEPT ![m] = 1]
            /\ hist' = Append(hist, Lbl("Dep", m, G))
-           /\ UNCHANGED <<proj, seen, litsLeft, registry, wg, ctr, names, mainpc, sorted>>
+           /\ UNCHANGED <<proj, seen, litsLeft, registry, wg, ctr, names, mainpc, sorted, round, past>>
 
 Dep(m) == /\ pc[m] = "dep"
           /\ LET d == Imp(m)[idx[m]] IN
@@ -126,7 +158,7 @@ Dep(m) == /\ pc[m] = "dep"
           /\ IF idx[m] = Len(Imp(m))
              THEN pc' = [pc EXCEPT ![m] = "spawn"] /\ idx' = [idx EXCEPT ![m] = 1]
              ELSE pc' = pc /\ idx' = [idx EXCEPT ![m] = @ + 1]
-          /\ UNCHANGED <<proj, seen, litsLeft, registry, wg, ctr, names, mainpc, sorted>>
+          /\ UNCHANGED <<proj, seen, litsLeft, registry, wg, ctr, names, mainpc, sorted, round, past>>
 
 Spawn(m) == /\ pc[m] = "spawn"
             /\ LET d == Imp(m)[idx[m]] IN
@@ -137,18 +169,18 @@ Spawn(m) == /\ pc[m] = "spawn"
                                            ![m] = IF idx[m] = Len(Imp(m)) THEN "exit" ELSE @]
                /\ hist' = Append(hist, Lbl("Spawn", m, d))
             /\ idx' = [idx EXCEPT ![m] = @ + 1]
-            /\ UNCHANGED <<proj, litsLeft, registry, depGraph, errs, ctr, names, mainpc, sorted>>
+            /\ UNCHANGED <<proj, litsLeft, registry, depGraph, errs, ctr, names, mainpc, sorted, bag, round, past>>
 
 (* the goroutine returns: deferred wg.Done. G has no dependency steps. *)
 Exit(m) == /\ \/ pc[m] = "exit"
               \/ (pc[m] = "parse" /\ litsLeft[m] = 0 /\ m = G)
            /\ pc' = [pc EXCEPT ![m] = "done"] /\ wg' = wg - 1
            /\ UNCHANGED <<proj, seen, idx, litsLeft, registry, depGraph, errs, ctr, names, mainpc,
-                          sorted, hist>>
+                          sorted, hist, bag, round, past>>
 
 MainWait == /\ mainpc = "wait" /\ wg = 0 /\ mainpc' = "topo"
             /\ UNCHANGED <<proj, seen, pc, idx, litsLeft, registry, depGraph, errs, wg, ctr, names,
-                           sorted, hist>>
+                           sorted, hist, bag, round, past>>
 
 (* ComputeTopologicalOrder: Kahn's algorithm, zero in-degree queue and every wave sorted by name *)
 InDeg(g, m) == Len(g[m])
@@ -167,9 +199,38 @@ TopoOf(g, reg) == LET indeg == [m \in reg |-> InDeg(g, m)]
 MainTopo == /\ mainpc = "topo"
             /\ sorted' = TopoOf(depGraph, registry)
             /\ mainpc' = "done"
-            /\ UNCHANGED <<proj, seen, pc, idx, litsLeft, registry, depGraph, errs, wg, ctr, names, hist>>
+            /\ UNCHANGED <<proj, seen, pc, idx, litsLeft, registry, depGraph, errs, wg, ctr, names, hist,
+                           bag, round, past>>
 
-Next == \/ MainSpawn \/ MainWait \/ MainTopo
+(* What a second compilation must reproduce (C14): failure, diagnostics with their places, the
+   names given to function literals, the module order. *)
+ErrKey(e) == <<e.kind, e.m, e.d, e.path>>
+(* sortDiagnostics: stable sort by (file, line) -- insertion sort keeps ties in insertion order *)
+DLess(a, b) == Ord(a.f) < Ord(b.f) \/ (a.f = b.f /\ a.line < b.line)
+RECURSIVE InsertStable(_, _)
+InsertStable(sq, d) == IF sq = <<>> THEN <<d>>
+                       ELSE IF DLess(d, Head(sq)) THEN <<d>> \o sq
+                       ELSE <<Head(sq)>> \o InsertStable(Tail(sq), d)
+RECURSIVE StableSort(_)
+StableSort(sq) == IF sq = <<>> THEN <<>> ELSE InsertStable(StableSort(SubSeq(sq, 1, Len(sq) - 1)), sq[Len(sq)])
+Output == [ fail    |-> errs # <<>> \/ bag # <<>>,
+            errset  |-> {ErrKey(errs[i]) : i \in 1 .. Len(errs)},
+            emitted |-> StableSort(bag),
+            names   |-> names,
+            sorted  |-> sorted ]
+
+(* compile the same project again (C14): remember schedule and output, reset everything else *)
+Restart == /\ mainpc = "done" /\ round < Rounds
+           /\ past' = Append(past, [sched |-> hist, out |-> Output])
+           /\ round' = round + 1
+           /\ seen' = {} /\ pc' = [m \in Mods |-> "idle"] /\ idx' = [m \in Mods |-> 1]
+           /\ litsLeft' = [m \in Mods |-> 0] /\ registry' = {G}
+           /\ depGraph' = [m \in Mods |-> <<>>] /\ errs' = <<>> /\ wg' = 0 /\ ctr' = 0
+           /\ names' = [m \in Mods |-> <<>>] /\ mainpc' = "spawnG" /\ sorted' = <<>> /\ hist' = <<>>
+           /\ bag' = <<>>
+           /\ UNCHANGED proj
+
+Next == \/ MainSpawn \/ MainWait \/ MainTopo \/ Restart
         \/ \E m \in Mods : ParseBegin(m) \/ GenLit(m) \/ DepG(m) \/ Dep(m) \/ Spawn(m) \/ Exit(m)
 
 Spec     == Init /\ [][Next]_vars
@@ -205,24 +266,22 @@ TopoOK == Done /\ missing = {} =>
 
 Termination == <>Done
 
-(* What a second compilation must reproduce (C14): failure, diagnostics with their places, the
-   names given to function literals, the module order. *)
-ErrKey(e) == <<e.kind, e.m, e.d>>
-Output == [ fail   |-> errs # <<>>,
-            errset |-> {ErrKey(errs[i]) : i \in 1 .. Len(errs)},
-            names  |-> names,
-            sorted |-> sorted ]
-
-View == <<imports, nlits, missing, seen, pc, idx, litsLeft, registry, depGraph, errs, wg, ctr,
-          names, mainpc, sorted>>
+View == <<imports, nlits, missing, ndiag, seen, pc, idx, litsLeft, registry, depGraph, errs, wg, ctr,
+          names, mainpc, sorted, bag, round>>
 
 (* Case emission at terminal states (one per distinct terminal abstract state, thanks to VIEW) *)
 ImpJson == [m \in User |-> imports[m]]
-TerminalCase == [ imports |-> ImpJson, nlits |-> nlits, missing |-> SortSet(missing),
+AllRounds == Append(past, [sched |-> hist, out |-> Output])
+TerminalCase == [ imports |-> ImpJson, nlits |-> nlits, missing |-> SortSet(missing), ndiag |-> ndiag,
+                  rounds |-> [i \in 1 .. Len(AllRounds) |->
+                                [sched |-> AllRounds[i].sched,
+                                 same |-> AllRounds[i].out = AllRounds[1].out,
+                                 sameButNames |-> [AllRounds[i].out EXCEPT !.names = <<>>] =
+                                                  [AllRounds[1].out EXCEPT !.names = <<>>]]],
                   entry |-> Entry, hasCycle |-> HasCycle, live |-> SortSet(Live \ {G}),
                   cycErrs |-> SortSet({e.m : e \in CycleErrs}),
                   errs |-> errs, names |-> names, sorted |-> sorted,
                   depGraph |-> [m \in User |-> depGraph[m]],
                   sched |-> hist ]
-EmitTerminal == Done => PrintT("@@CASE " \o ToJson(TerminalCase))
+EmitTerminal == (Done /\ round = Rounds) => PrintT("@@CASE " \o ToJson(TerminalCase))
 =============================================================================
